@@ -200,8 +200,30 @@ def h_stats_two_clauses(num_rows: int, min_a: int, max_a: int, xa: int, min_b: i
     return not api.filter_out_stats(rg, filters, SchemaShim())
 
 
-def replay_h_stats_two_clauses(**kw):
-    return None, "no concrete driver for this shape"
+def replay_h_stats_two_clauses(num_rows, min_a, max_a, xa, min_b, max_b, xb, op1, v1, op2, v2):
+    filters = [("a", OPS[op1], v1), ("b", OPS[op2], v2)]
+    return _replay_two_columns([xa, min_a, max_a], [xb, min_b, max_b], filters, xa, xb)
+
+
+def _replay_two_columns(avals, bvals, filters, xa, xb, **wkw):
+    import tempfile, os, shutil
+    import pandas as pd
+    import fastparquet
+    df = pd.DataFrame({"a": avals, "b": bvals})
+    d = tempfile.mkdtemp(prefix="c05-")
+    try:
+        fn = os.path.join(d, "t.parq")
+        fastparquet.write(fn, df, stats=True, **wkw)
+        try:
+            out = fastparquet.ParquetFile(fn).to_pandas(filters=filters)
+        except Exception as ex:
+            return True, "filtered read raises %s" % type(ex).__name__
+        present = ((out["a"] == xa) & (out["b"] == xb)).any() if len(out) else False
+        if not present:
+            return True, "row (a=%r, b=%r) satisfies %r but was pruned" % (xa, xb, filters)
+        return False, "row returned"
+    finally:
+        shutil.rmtree(d, ignore_errors=True)
 
 
 def h_stats_two_columns_partial(num_rows: int, min_a: int, max_a: int, xa: int, has_b: bool, lo_b: bool, hi_b: bool,
@@ -414,7 +436,7 @@ def h_cats_in_clause(p: int, values: List[int], negate: bool) -> bool:
 
 
 def replay_h_cats_in_clause(p, values, negate):
-    return None, "no concrete driver"
+    return _replay_partition([("p", "not in" if negate else "in", list(values))], p, 0, 0, [])
 
 
 # ------------------------------------------------------------ filter_row_groups --
@@ -460,8 +482,40 @@ def h_row_groups_and(min0: int, max0: int, p0: int, k: int, xa: int,
     return ordered and (kept or not sat)
 
 
-def replay_h_row_groups_and(**kw):
-    return None, "no concrete driver"
+def _replay_partition(filters, p, lo, hi, avals):
+    """real hive dataset: partition p (the witness group, column a holding lo..hi and the witness value) next to
+    partition p+1000; the rows of the witness group that satisfy the filters must come back"""
+    import tempfile, os, shutil
+    import pandas as pd
+    import fastparquet
+    a = [lo, hi] + list(avals)
+    df = pd.DataFrame({"a": a + [0], "p": [p] * len(a) + [p + 1000]})
+    d = tempfile.mkdtemp(prefix="c05-")
+    try:
+        dn = os.path.join(d, "ds")
+        fastparquet.write(dn, df, file_scheme="hive", partition_on=["p"], stats=True)
+        try:
+            out = fastparquet.ParquetFile(dn).to_pandas(filters=filters)
+        except Exception as ex:
+            return True, "filtered read raises %s: %s" % (type(ex).__name__, str(ex)[:60])
+
+        def sat(row, grp):
+            return all(row_pred(op, row[c], v) for c, op, v in grp)
+        groups = [filters] if filters and isinstance(filters[0][0], str) else filters
+        want = [x for x in a if any(sat({"a": x, "p": p}, g) for g in groups)]
+        got = [int(x) for x, q in zip(out["a"], out["p"]) if int(q) == p] if len(out) else []
+        missing = [x for x in want if x not in got]
+        if missing:
+            return True, "rows a=%r of partition p=%r satisfy %r but are not returned (whole row group pruned)" % (
+                missing, p, filters)
+        return False, "qualifying rows returned"
+    finally:
+        shutil.rmtree(d, ignore_errors=True)
+
+
+def replay_h_row_groups_and(min0, max0, p0, k, xa, opa, va, pne, vp, nested):
+    A, P = ("a", OPS[opa], va), ("p", "!=" if pne else "==", vp)
+    return _replay_partition([[A, P]] if nested else [A, P], p0, min0, max0, [xa])
 
 
 def h_row_groups_or2(min0: int, max0: int, p0: int, k: int, xa: int,
@@ -479,8 +533,9 @@ def h_row_groups_or2(min0: int, max0: int, p0: int, k: int, xa: int,
     return ordered and (kept or not sat)
 
 
-def replay_h_row_groups_or2(**kw):
-    return None, "no concrete driver"
+def replay_h_row_groups_or2(min0, max0, p0, k, xa, opa, va, pne, vp):
+    A, P = ("a", OPS[opa], va), ("p", "!=" if pne else "==", vp)
+    return _replay_partition([[A], [P]], p0, min0, max0, [xa])
 
 
 def h_row_groups_or3(min0: int, max0: int, p0: int, k: int, xa: int,
@@ -498,8 +553,9 @@ def h_row_groups_or3(min0: int, max0: int, p0: int, k: int, xa: int,
     return ordered and (kept or not sat)
 
 
-def replay_h_row_groups_or3(**kw):
-    return None, "no concrete driver"
+def replay_h_row_groups_or3(min0, max0, p0, k, xa, opa, va, pne, vp, blt, vb):
+    A, P, B = ("a", OPS[opa], va), ("p", "!=" if pne else "==", vp), ("a", "<" if blt else ">=", vb)
+    return _replay_partition([[A, P], [B]], p0, min0, max0, [xa])
 
 
 # ------------------------------------------------------------------- replay kit --
